@@ -114,6 +114,8 @@ func Drive(o DriveOpts) int {
 		}
 		if r.sum != nil {
 			agg.Cases += r.sum.Cases
+			agg.ExtraCases += r.sum.ExtraCases
+			agg.ExtraDistinct += r.sum.ExtraDistinct
 			for k, v := range r.sum.Counters {
 				agg.Counters[k] += v
 			}
@@ -224,8 +226,9 @@ func Drive(o DriveOpts) int {
 		"assumptions": p.Assumptions,
 	}
 	cov := map[string]any{
-		"evaluations":         agg.Cases,
-		"distinct_nontrivial": len(hashes),
+		"evaluations":         int64(agg.Cases) + agg.ExtraCases,
+		"distinct_nontrivial": int64(len(hashes)) + agg.ExtraDistinct,
+		"journaled_cases":     agg.Cases,
 		"rule":                p.Rule,
 		"samples":             agg.Samples,
 		"events":              agg.Counters,
@@ -272,7 +275,7 @@ func Drive(o DriveOpts) int {
 	_ = os.WriteFile(filepath.Join(evDir, o.Prop+".json"), append(bs, '\n'), 0o644)
 
 	fmt.Printf("%s %s seed=%d: cases=%d distinct_nontrivial=%d violations=%d known=%d inconclusive=%d crashes=%d races=%d/%d wall=%.1fs\n",
-		o.Prop, o.Tier, o.Seed, agg.Cases, len(hashes), newViol, knownSeen, len(inconcl), crashes, len(raceSigs), len(races), wall)
+		o.Prop, o.Tier, o.Seed, int64(agg.Cases)+agg.ExtraCases, int64(len(hashes))+agg.ExtraDistinct, newViol, knownSeen, len(inconcl), crashes, len(raceSigs), len(races), wall)
 	keys := make([]string, 0, len(agg.Counters))
 	for k := range agg.Counters {
 		keys = append(keys, k)
@@ -376,6 +379,8 @@ func runShard(o DriveOpts, p *Property, bin, work string, shard, n, timeoutS int
 
 func mergeSummary(dst, src *Summary, hashset map[string]struct{}) {
 	dst.Cases += src.Cases
+	dst.ExtraCases += src.ExtraCases
+	dst.ExtraDistinct += src.ExtraDistinct
 	for k, v := range src.Counters {
 		dst.Counters[k] += v
 	}
